@@ -565,6 +565,11 @@ class Evaluator:
         cname = f.id if isinstance(f, ast.Name) else (f.attr if isinstance(f, ast.Attribute) else None)
         if cname == "cls" and isinstance(f, ast.Name) and self.owner:
             cname = self.owner
+        if cname == "replace" and fname in ("replace", "dataclasses.replace") and len(node.args) == 1 and not star_kw:
+            # dataclasses.replace(T, k=v) with T a known constructor call C(...) is C(<T's arguments with k overridden>)
+            r_ = self._dc_replace(node.args[0], pos[0], kwd)
+            if r_ is not None:
+                return r_
         params = SIGS.get(cname) if cname and not any(isinstance(a, ast.Starred) for a in node.args) else None
         if params is not None and kwd and len(pos) <= len(params):
             # f(a, q=c, p=b) with signature (x, p, q): the keywords that continue the positional prefix are rendered in place
@@ -574,6 +579,43 @@ class Evaluator:
                 i += 1
         kw = [f"{k}={v}" for k, v in kwd.items()]
         return Term.atom(f"{fname}(" + ",".join(pos + sorted(kw) + sorted(star_kw)) + ")")
+
+    def _dc_replace(self, arg, base_key, kwd):
+        if isinstance(arg, ast.Name) and arg.id not in self.env:
+            mod = getattr(self.const_of, "mod", None)
+            b = mod.env.get(arg.id) if mod is not None else None
+            if not (b and b[0] == "assign" and isinstance(b[1], ast.Call)):
+                return None
+            rebinds = [n for n in ast.walk(mod.tree) if isinstance(n, (ast.Name, ast.Attribute)) and isinstance(n.ctx, (ast.Store, ast.Del)) and
+                       ((isinstance(n, ast.Name) and n.id == arg.id) or (isinstance(n, ast.Attribute) and isinstance(n.value, ast.Name) and n.value.id == arg.id))]
+            if len(rebinds) != 1:
+                return None  # the template is re-bound or has a field assigned somewhere in its module
+            base_key = Evaluator(const_of=self.const_of, this_names=()).ev(b[1]).key()
+        if not base_key.endswith(")") or "(" not in base_key:
+            return None
+        cname = base_key[:base_key.index("(")]
+        params = SIGS.get(cname)
+        if params is None or not cname.isidentifier():
+            return None
+        inner = base_key[len(cname) + 1:-1]
+        have = {}
+        for i, part in enumerate(_split_top(inner, ",") if inner else []):
+            import re as _re
+            m = _re.match(r"^([A-Za-z_][A-Za-z_0-9]*)=(?!=)(.*)$", part)
+            if part.startswith("*"):
+                return None
+            if m:
+                have[m.group(1)] = m.group(2)
+            elif i < len(params):
+                have[params[i]] = part
+            else:
+                return None
+        have.update(kwd)
+        pos, i = [], 0
+        while i < len(params) and params[i] in have:
+            pos.append(have.pop(params[i]))
+            i += 1
+        return Term.atom(f"{cname}(" + ",".join(pos + sorted(f"{k}={v}" for k, v in have.items())) + ")")
 
     # ------------------------------------------------------------ conditions
     def cond(self, node):
